@@ -670,7 +670,7 @@ Proof.
     assert (Pnow : 0 < now) by (apply Pn; discriminate).
     unfold deref. rewrite G. cbn [bind].
     destruct (o_repeat o && negb (kmem (a, o_seq o) (canceling st))) eqn:Br.
-    + apply andb_true_iff in Br as [Rp _]. unfold o_repeat in Rp. apply Z.ltb_lt in Rp.
+    + apply andb_true_iff in Br as [Rp _]. unfold o_repeat in Rp. apply Z.leb_le in Rp.
       set (o' := mkT (o_seq o) (now + o_iv o) (o_iv o)).
       set (st1 := set_heap st (hput a o' (heap st))).
       assert (I1 : Inv st1) by (apply inv_hput_det; auto).
